@@ -339,7 +339,7 @@ func (r *e1run) opsString() string {
 		if u.NAU > 1 {
 			fmt.Fprintf(&b, "x%d", u.NAU)
 		}
-		if r.cfg.Tracks[u.Track].Kind == "h264b" {
+		if k := r.cfg.Tracks[u.Track].Kind; k == "h264b" || k == "h265b" {
 			fmt.Fprintf(&b, "poc%d", u.POC)
 		}
 	}
@@ -921,7 +921,7 @@ func (r *e1run) checkInit(k int) {
 				kindOK = isH264(t.Kind)
 				psOK = bytes.Equal(c.SPS, r.cfg.pset(t.Kind, par).sps) && bytes.Equal(c.PPS, r.cfg.pset(t.Kind, par).pps)
 			case *fmp4.CodecH265:
-				kindOK = t.Kind == "h265"
+				kindOK = isH265(t.Kind)
 				psOK = bytes.Equal(c.SPS, r.cfg.pset(t.Kind, par).sps) && bytes.Equal(c.PPS, r.cfg.pset(t.Kind, par).pps) && bytes.Equal(c.VPS, r.cfg.pset(t.Kind, par).vps)
 			case *fmp4.CodecAV1:
 				kindOK = t.Kind == "av1"
